@@ -383,10 +383,7 @@ func TestVerifC06(t *testing.T) {
 			out = append(out, fmt.Sprintf("%+v", rm))
 		}
 	}
-	maxLen := 2
-	if thorough {
-		maxLen = 3
-	}
+	maxLen := 3
 	var seqs [][]int
 	for a := range basis {
 		seqs = append(seqs, []int{a})
@@ -430,7 +427,7 @@ func TestVerifC06(t *testing.T) {
 			// the same split between the handshake's left-over bytes (init) and the connection
 			check(io.MultiReader(bytes.NewReader(stream[:k]), bytes.NewReader(stream[k:])), fmt.Sprintf("init=%d bytes", k))
 		}
-		if len(stream) <= 64 || (thorough && len(stream) <= 110) {
+		if len(stream) <= 80 || (thorough && len(stream) <= 160) {
 			for k := 1; k < len(stream); k++ {
 				for l := 1; k+l < len(stream); l++ {
 					check(&cutReader{data: stream, segs: []int{k, l}}, fmt.Sprintf("cuts at %d,%d", k, k+l))
